@@ -34,8 +34,9 @@ MANIFEST = {
 
 
 def mapping_docs(tier):
+    # thorough: four keys (24 x 24 orders per pair of mappings), which is affordable over two values only
     keys = ('a', 'b', 'c') if tier == 'quick' else ('a', 'b', 'c', 'd')
-    vals = (1, 2, 'ab')
+    vals = (1, 2, 'ab') if tier == 'quick' else (1, 'ab')
     flat = []
     for combo in itertools.product((None,) + vals, repeat=len(keys)):
         flat.append({k: v for k, v in zip(keys, combo) if v is not None})
